@@ -326,6 +326,21 @@ def gen_cases(rng, tier):
                       "m": rng.randint(12, 16), "noise": rng.choice([0.3, 1.0, 2.5]),
                       "rs": rng.choice([0, 1, 7, 42, 123]), "ycont": rng.choice(["array", "series"]),
                       "unseen_test_label": rng.random() < 0.25})
+    # BOSSEnsemble with a SMALL cap on the number of members (max_ensemble_size 1, 2, 3) crossed with
+    # the accuracy threshold (class default / 0.5): the cap is reached while the windows are searched
+    # and a later window that beats the weakest member evicts it, so the ensemble that votes is not
+    # the list of everything that was ever admitted (seed C17-i).  Appended after every other stream:
+    # the earlier cases of every seed are unchanged.  min_window / series length as for every
+    # BOSSEnsemble problem (BOSS_MIN_SERIES).
+    for i in range(18 if tier == "quick" else 90):
+        k = rng.choice([2, 2, 3])
+        n = rng.randint(max(8, 2 * k), 14)
+        cases.append({"kind": "clf", "clf": "boss", "seed": rng.randint(0, 10 ** 6), "k": k,
+                      "labelset": rng.choice(sorted(LABELSETS)), "sizes": _sizes(rng, k, n), "n_test": 5,
+                      "m": rng.randint(BOSS_MIN_SERIES + 2, 24), "noise": rng.choice([0.3, 1.0, 2.5]),
+                      "rs": rng.choice([0, 1, 7, 42, 123]), "ycont": rng.choice(["array", "series"]),
+                      "unseen_test_label": rng.random() < 0.25,
+                      "boss": {"cap": 1 + i % 3, "threshold": [None, 0.5][(i // 3) % 2]}})
     return cases
 
 
@@ -499,13 +514,18 @@ def _boss_min_window():
     return max(probe.word_lengths) + (2 if True in probe.norm_options else 0)
 
 
-def _make(name, rs, m=None):
+def _make(name, rs, m=None, boss=None):
     if name == "boss":
         from sktime.classification.dictionary_based._boss import BOSSEnsemble
         mw = _boss_min_window()
         if m is not None and m < mw:
             raise _FitRefused("BOSSEnsemble: series of %d points, shorter than the %d points below which "
                               "SFA._create_word indexes past its DFT buffer (not generated)" % (m, mw))
+        if boss:
+            # small caps (generated dimension): the cap is reached during fit and later windows
+            # compete with the weakest member; threshold None = the class default
+            kw = {} if boss.get("threshold") is None else {"threshold": boss["threshold"]}
+            return BOSSEnsemble(max_ensemble_size=boss["cap"], min_window=mw, random_state=rs, **kw)
         return BOSSEnsemble(max_ensemble_size=3 + (rs or 0) % 3, min_window=mw, random_state=rs)
     if name == "cboss":
         from sktime.classification.dictionary_based._cboss import ContractableBOSS
@@ -690,7 +710,7 @@ def _run_clf(case):
                        "test_columns": [str(c) for c in Xte.columns]}
     else:
         Xtr, ytr, Xte, yte = _problem(case)
-        clf = _make(name, case["rs"], case["m"])
+        clf = _make(name, case["rs"], case["m"], case.get("boss"))
         _prefit(clf, case)
         _fit(clf, Xtr, _ycont(ytr, case["ycont"]))
         kind, members = _member_rows(name, clf, Xte)
